@@ -57,6 +57,7 @@ typedef struct {
                            reports nthreads (OMP_THREAD_LIMIT / OMP_DYNAMIC: legal for any runtime) */
     uint64_t max_steps; /* cap on scheduling steps per begin/end */
     uint64_t window_fn; /* if non-zero: access pre-emption only in the region function at this library offset */
+    uint64_t flags;     /* bit 0: conflict detector on (trace build) */
 } SimCfg;
 
 typedef struct {
@@ -101,6 +102,7 @@ typedef struct SimThread {
     int barrier_gen;
     struct Team *team;
     struct Team *team_top; /* innermost team this coroutine is executing in */
+    int locks_held;
 } SimThread;
 
 typedef struct Team {
@@ -125,7 +127,7 @@ typedef struct Team {
 } Team;
 
 /* ------------------------------------------------------------------------------ */
-static SimCfg g_cfg = {1, STRAT_RTC_ID, 0, 0, 0, 0, 0, 0, 0, 0};
+static SimCfg g_cfg = {1, STRAT_RTC_ID, 0, 0, 0, 0, 0, 0, 0, 0, 0};
 static SimStats g_st;
 static uint64_t g_rng = 0x1234567;
 static int g_err = 0;
@@ -135,6 +137,7 @@ static SimThread *g_cur = NULL; /* running coroutine (NULL = scheduler / serial 
 static ucontext_t g_sched_ctx;
 static long g_countdown = 0;
 static int g_in_window = 0;
+static uint32_t g_epoch = 1; /* synchronisation epoch of the conflict detector */
 static int g_active = 0; /* between begin/end */
 static uint64_t g_window_salt = 0;
 static void *g_stacks[MAX_TEAM];
@@ -320,6 +323,7 @@ static void release_barrier(Team *t) {
             t->th[i].state = ST_RUNNABLE;
     t->barrier_waiting = 0;
     t->barrier_gen++;
+    g_epoch++;
 }
 
 /* called on the scheduler context */
@@ -418,6 +422,140 @@ static void tramp(unsigned hi, unsigned lo) {
 }
 
 /* returns an address-independent id of the outlined function (offset in its library) */
+/* ------------------------------------------------------------------------------ */
+/* Conflict detector (search guidance, never a verdict).  Shadow state per 4-byte word: last
+ * writer and reader set within the current synchronisation epoch (epochs advance at region
+ * start/end and at every barrier release; accesses inside critical sections / under locks
+ * and atomic accesses are not tracked).  Two accesses of different threads to one word in
+ * one epoch, at least one a write, mark the running region function as "conflicting"; the
+ * engine then re-runs the case with dense access pre-emption confined to that function and
+ * only a differing result is a violation. */
+typedef struct {
+    uint64_t key;   /* word address >> 1 (8-byte granule) */
+    uint32_t epoch;
+    int16_t w[2];   /* last writer per 4-byte half, -1 none */
+    uint64_t r[2];  /* reader set per half (tid & 63) */
+} Shadow;
+#define SH_BITS 21
+#define SH_SIZE (1u << SH_BITS)
+#define SH_PROBES 12
+static Shadow *g_shadow = NULL;
+static uint64_t g_cur_fn_off = 0;
+static uint64_t g_sh_overflow = 0;
+#define MAX_CONF 64
+static struct {
+    uint64_t fn_off;
+    uint64_t count;
+    uint64_t ww, rw;
+} g_conf[MAX_CONF];
+static int g_nconf = 0;
+static inline int detect_on(void) { return (g_cfg.flags & 1u) != 0; }
+static int g_dbg_conf = 0;
+static void note_conflict(int ww) {
+    if (g_dbg_conf > 0) {
+        g_dbg_conf--;
+        fprintf(stderr, "CONFLICT fn_off=%lx ww=%d tid=%d epoch=%u\n", (unsigned long)g_cur_fn_off, ww, g_cur ? g_cur->tid : -1, g_epoch);
+    }
+    for (int i = 0; i < g_nconf; i++)
+        if (g_conf[i].fn_off == g_cur_fn_off) {
+            g_conf[i].count++;
+            if (ww)
+                g_conf[i].ww++;
+            else
+                g_conf[i].rw++;
+            return;
+        }
+    if (g_nconf < MAX_CONF) {
+        g_conf[g_nconf].fn_off = g_cur_fn_off;
+        g_conf[g_nconf].count = 1;
+        g_conf[g_nconf].ww = ww ? 1 : 0;
+        g_conf[g_nconf].rw = ww ? 0 : 1;
+        g_nconf++;
+    }
+}
+static inline Shadow *sh_find(uint64_t key, int create) {
+    uint64_t h = (key * 0x9E3779B97F4A7C15ULL) >> (64 - SH_BITS);
+    Shadow *freeslot = NULL;
+    for (int p = 0; p < SH_PROBES; p++) {
+        Shadow *e = &g_shadow[(h + (uint64_t)p) & (SH_SIZE - 1)];
+        if (e->epoch == g_epoch) {
+            if (e->key == key)
+                return e;
+        } else if (!freeslot) {
+            freeslot = e;
+        }
+    }
+    if (!create)
+        return NULL;
+    if (!freeslot) {
+        g_sh_overflow++;
+        return NULL;
+    }
+    freeslot->key = key;
+    freeslot->epoch = g_epoch;
+    freeslot->w[0] = freeslot->w[1] = -1;
+    freeslot->r[0] = freeslot->r[1] = 0;
+    return freeslot;
+}
+static void shadow_access(const void *addr, unsigned long size, int is_write) {
+    if (!g_cur || !g_team || !g_team->th || g_team->n < 2)
+        return;
+    if (g_team->crit_owner == g_cur->tid || g_cur->locks_held > 0)
+        return;
+    if (!g_shadow) {
+        g_shadow = (Shadow *)calloc(SH_SIZE, sizeof(Shadow));
+        if (!g_shadow)
+            return;
+    }
+    uintptr_t a = (uintptr_t)addr;
+    uintptr_t w0 = a >> 2, w1 = (a + (size ? size : 1) - 1) >> 2;
+    if (w1 - w0 > 4096)
+        w1 = w0 + 4096;
+    int tid = g_cur->tid;
+    uint64_t bit = 1ULL << (tid & 63);
+    for (uintptr_t w = w0; w <= w1; w++) {
+        Shadow *e = sh_find((uint64_t)(w >> 1), 1);
+        if (!e)
+            return;
+        int hf = (int)(w & 1);
+        if (g_dbg_conf > 0 && ((is_write && ((e->w[hf] >= 0 && e->w[hf] != tid) || (e->r[hf] & ~bit))) || (!is_write && e->w[hf] >= 0 && e->w[hf] != tid)))
+            fprintf(stderr, "  addr=%p size=%lu write=%d prev_writer=%d readers=%lx me=%d\n", (void *)(w << 2), size, is_write, e->w[hf], (unsigned long)e->r[hf], tid);
+        if (is_write) {
+            if (e->w[hf] >= 0 && e->w[hf] != tid)
+                note_conflict(1);
+            else if (e->r[hf] & ~bit)
+                note_conflict(0);
+            e->w[hf] = (int16_t)tid;
+        } else {
+            if (e->w[hf] >= 0 && e->w[hf] != tid)
+                note_conflict(0);
+            e->r[hf] |= bit;
+        }
+    }
+}
+static void shadow_forget(const void *addr, size_t size) {
+    if (!g_shadow || !g_cur)
+        return;
+    uintptr_t a = (uintptr_t)addr;
+    uintptr_t k0 = a >> 3, k1 = (a + (size ? size : 1) - 1) >> 3;
+    if (k1 - k0 > (1u << 22))
+        return;
+    for (uintptr_t k = k0; k <= k1; k++) {
+        Shadow *e = sh_find((uint64_t)k, 0);
+        if (e)
+            e->epoch = 0;
+    }
+}
+void simgomp_debug_conflicts(int n) { g_dbg_conf = n; }
+int simgomp_nconflicts(void) { return g_nconf; }
+void simgomp_conflict(int i, uint64_t *fn_off, uint64_t *count, uint64_t *ww, uint64_t *rw) {
+    *fn_off = g_conf[i].fn_off;
+    *count = g_conf[i].count;
+    *ww = g_conf[i].ww;
+    *rw = g_conf[i].rw;
+}
+uint64_t simgomp_shadow_overflow(void) { return g_sh_overflow; }
+
 static uint64_t record_region(void (*fn)(void *), int n) {
     for (int i = 0; i < g_nregions; i++)
         if (g_regions[i].fn == (void *)fn) {
@@ -571,6 +709,7 @@ static void parallel_impl(void (*fn)(void *), void *data, unsigned num_threads,
         th->cur_ws = preset ? &t->ws[0] : NULL;
         th->team = t;
         th->team_top = t;
+        th->locks_held = 0;
         th->stack = get_stack(i);
         getcontext(&th->ctx);
         th->ctx.uc_stack.ss_sp = (char *)th->stack + 4096;
@@ -582,7 +721,10 @@ static void parallel_impl(void (*fn)(void *), void *data, unsigned num_threads,
     }
     g_team = t;
     g_in_window = t->window;
+    g_cur_fn_off = fn_off;
+    g_epoch++;
     run_team(t);
+    g_epoch++;
     g_in_window = 0;
     g_team = NULL;
     g_cur = NULL;
@@ -1122,26 +1264,29 @@ void GOMP_sections_end(void) { GOMP_loop_end(); }
 void __tsan_init(void) {}
 void __tsan_func_entry(void *pc) { (void)pc; }
 void __tsan_func_exit(void) {}
-void __tsan_read1(void *a) { (void)a; ACCESS_BODY }
-void __tsan_read2(void *a) { (void)a; ACCESS_BODY }
-void __tsan_read4(void *a) { (void)a; ACCESS_BODY }
-void __tsan_read8(void *a) { (void)a; ACCESS_BODY }
-void __tsan_read16(void *a) { (void)a; ACCESS_BODY }
-void __tsan_write1(void *a) { (void)a; ACCESS_BODY }
-void __tsan_write2(void *a) { (void)a; ACCESS_BODY }
-void __tsan_write4(void *a) { (void)a; ACCESS_BODY }
-void __tsan_write8(void *a) { (void)a; ACCESS_BODY }
-void __tsan_write16(void *a) { (void)a; ACCESS_BODY }
-void __tsan_unaligned_read2(void *a) { (void)a; ACCESS_BODY }
-void __tsan_unaligned_read4(void *a) { (void)a; ACCESS_BODY }
-void __tsan_unaligned_read8(void *a) { (void)a; ACCESS_BODY }
-void __tsan_unaligned_read16(void *a) { (void)a; ACCESS_BODY }
-void __tsan_unaligned_write2(void *a) { (void)a; ACCESS_BODY }
-void __tsan_unaligned_write4(void *a) { (void)a; ACCESS_BODY }
-void __tsan_unaligned_write8(void *a) { (void)a; ACCESS_BODY }
-void __tsan_unaligned_write16(void *a) { (void)a; ACCESS_BODY }
-void __tsan_read_range(void *a, unsigned long n) { (void)a; (void)n; ACCESS_BODY }
-void __tsan_write_range(void *a, unsigned long n) { (void)a; (void)n; ACCESS_BODY }
+#define SHADOW(a, n, wr)                                                                        \
+    if (detect_on())                                                                            \
+        shadow_access((a), (n), (wr));
+void __tsan_read1(void *a) { SHADOW(a, 1, 0) ACCESS_BODY }
+void __tsan_read2(void *a) { SHADOW(a, 2, 0) ACCESS_BODY }
+void __tsan_read4(void *a) { SHADOW(a, 4, 0) ACCESS_BODY }
+void __tsan_read8(void *a) { SHADOW(a, 8, 0) ACCESS_BODY }
+void __tsan_read16(void *a) { SHADOW(a, 16, 0) ACCESS_BODY }
+void __tsan_write1(void *a) { SHADOW(a, 1, 1) ACCESS_BODY }
+void __tsan_write2(void *a) { SHADOW(a, 2, 1) ACCESS_BODY }
+void __tsan_write4(void *a) { SHADOW(a, 4, 1) ACCESS_BODY }
+void __tsan_write8(void *a) { SHADOW(a, 8, 1) ACCESS_BODY }
+void __tsan_write16(void *a) { SHADOW(a, 16, 1) ACCESS_BODY }
+void __tsan_unaligned_read2(void *a) { SHADOW(a, 2, 0) ACCESS_BODY }
+void __tsan_unaligned_read4(void *a) { SHADOW(a, 4, 0) ACCESS_BODY }
+void __tsan_unaligned_read8(void *a) { SHADOW(a, 8, 0) ACCESS_BODY }
+void __tsan_unaligned_read16(void *a) { SHADOW(a, 16, 0) ACCESS_BODY }
+void __tsan_unaligned_write2(void *a) { SHADOW(a, 2, 1) ACCESS_BODY }
+void __tsan_unaligned_write4(void *a) { SHADOW(a, 4, 1) ACCESS_BODY }
+void __tsan_unaligned_write8(void *a) { SHADOW(a, 8, 1) ACCESS_BODY }
+void __tsan_unaligned_write16(void *a) { SHADOW(a, 16, 1) ACCESS_BODY }
+void __tsan_read_range(void *a, unsigned long n) { SHADOW(a, n, 0) ACCESS_BODY }
+void __tsan_write_range(void *a, unsigned long n) { SHADOW(a, n, 1) ACCESS_BODY }
 void __tsan_vptr_update(void **a, void *b) { (void)a; (void)b; }
 void __tsan_vptr_read(void **a) { (void)a; }
 
@@ -1254,6 +1399,8 @@ void sim_free(void *p) {
         set_err(ERR_CANARY, "heap block overrun detected at free");
     if (g_cfg.poison)
         memset(p, (unsigned char)~g_cfg.poison, h->size);
+    if (detect_on())
+        shadow_forget(p, h->size); /* the address may be handed to another thread next */
     h->magic = 0;
     free(h);
 }
@@ -1294,6 +1441,9 @@ void simgomp_begin(uint64_t seed, const SimCfg *cfg) {
     g_team = NULL;
     g_cur = NULL;
     g_in_window = 0;
+    g_nconf = 0;
+    g_sh_overflow = 0;
+    g_epoch++;
 }
 void simgomp_set_replay(const Seg *segs, uint64_t n, const int32_t *chunks, uint64_t nc) {
     g_rp = segs;
@@ -1364,6 +1514,11 @@ static uint64_t g_dgemm_split = 0;
 void sim_dgemm_(const char *ta, const char *tb, const int *m, const int *n, const int *k,
                 const double *alpha, const double *a, const int *lda, const double *b,
                 const int *ldb, const double *beta, double *c, const int *ldc) {
+    if (detect_on() && g_cur && *m > 0 && *n > 0) {
+        /* BLAS is not instrumented: tell the detector what the call writes */
+        for (int j = 0; j < *n; j++)
+            shadow_access(c + (size_t)j * (size_t)(*ldc), (unsigned long)(*m) * 8, 1);
+    }
     if (!g_cur || !g_in_window || *m <= 0 || *n <= 0) {
         dgemm_(ta, tb, m, n, k, alpha, a, lda, b, ldb, beta, c, ldc);
         return;
@@ -1410,9 +1565,13 @@ void omp_set_lock(void *l) {
         yield_to_sched();
     }
     lk(l)->owner = me;
+    if (g_cur)
+        g_cur->locks_held++;
 }
 void omp_unset_lock(void *l) {
     lk(l)->owner = -1;
+    if (g_cur && g_cur->locks_held > 0)
+        g_cur->locks_held--;
     Team *t = g_team;
     if (t && t->th)
         for (int i = 0; i < t->n; i++)
@@ -1425,6 +1584,8 @@ int omp_test_lock(void *l) {
     if (lk(l)->owner != -1)
         return 0;
     lk(l)->owner = omp_get_thread_num();
+    if (g_cur)
+        g_cur->locks_held++;
     return 1;
 }
 void omp_init_nest_lock(void *l) { omp_init_lock(l); }
